@@ -309,6 +309,8 @@ def _group_child(conn, fn, args, budget_ms, workers):
     try:
         eng, obls, info = fn(*args)
         discharge(eng, obls, budget_ms=budget_ms, workers=workers)
+        if os.environ.get("VERIF_CROSS"):
+            info = dict(info or {}); info["cross_check"] = cross_check_many(eng, obls, max_n=int(os.environ.get("VERIF_CROSS_N", "200")), workers=max(2, workers))
         conn.send(("ok", [freeze(o) for o in obls], info, dict(eng.stats), sorted(eng.derived)))
     except BaseException as ex:
         from pyvc.engine import Unsupported
@@ -334,3 +336,38 @@ def run_groups(tasks, budget_ms=12000, workers_each=None):
         p.join()
         out.append((name,) + tuple(msg))
     return out
+
+
+def cross_check_many(eng, obls, max_n=300, seed=0, solver="z3-4.8.12", timeout_s=15, workers=8):
+    """thorough tier: proved obligations are re-checked by an independent solver binary through SMT-LIB text.
+    -> {checked, agreed, no_answer, disagreed: [ids]}; a `sat` from the second solver on a proved obligation is a disagreement (checker failure)"""
+    import random, concurrent.futures as cf
+    cand = [o for o in obls if o.result == "proved" and not o.expect_refuted and o.hyps is not None and not (o.hyps and o.hyps[0] is None)]
+    rnd = random.Random(seed); rnd.shuffle(cand); cand = cand[:max_n]
+    texts = []
+    for o in cand:
+        try:
+            sol = z3.Solver(); sol.add(*vc_exprs(eng, o)); texts.append((o, sol.to_smt2()))
+        except z3.Z3Exception: pass
+    outdir = tempfile.mkdtemp(prefix="amshan_cross_")
+    def run(item):
+        i, (o, txt) = item; path = os.path.join(outdir, f"{i}.smt2"); open(path, "w").write(txt)
+        try:
+            cmd = SOLVER_CMDS[solver] + ([f"-T:{timeout_s}"] if solver.startswith("z3") else [f"--tlimit={timeout_s*1000}"]) + [path]
+            p = subprocess.run(cmd, capture_output=True, text=True, timeout=timeout_s + 10)
+            ans = ((p.stdout or "").strip().splitlines() or [""])[0].strip()
+            return o.oid, ans if ans in ("unsat", "sat", "unknown") else "error"
+        except subprocess.TimeoutExpired: return o.oid, "unknown"
+        finally:
+            try: os.unlink(path)
+            except OSError: pass
+    res = {"solver": solver, "checked": 0, "agreed": 0, "no_answer": 0, "disagreed": []}
+    with cf.ThreadPoolExecutor(max_workers=workers) as ex:
+        for oid, ans in ex.map(run, enumerate(texts)):
+            res["checked"] += 1
+            if ans == "unsat": res["agreed"] += 1
+            elif ans == "sat": res["disagreed"].append(oid)
+            else: res["no_answer"] += 1
+    try: os.rmdir(outdir)
+    except OSError: pass
+    return res
